@@ -9,7 +9,7 @@ import RTV.Gen.Emoji
   bool.rec <fixed|prefix> <cps>                          -> start:stop:textcps:0|1;…     (recognize_boolean)  | err:Other
   bool.extract <fixed|prefix> <cps>                      -> start:len:textcps:0|1:num/den;…                  | err:Other
   bool.tok <cps>                          -> cps;cps;…   (`-` for none: `none`)
-  bool.mv <start> <n> <src tok>… <match tok>…   -> num/den | err:ZeroDivisionError
+  bool.mv <miss> <start> <n> <src tok>… <match tok>…   -> num/den | err:ZeroDivisionError
   bool.rewrite <fixed|prefix> <cps>                      -> cps   (remove_unicode_matches on the pattern text)
 -/
 namespace RTV.Drv
@@ -17,7 +17,14 @@ open RTV.Py RTV.Re RTV.Choice
 
 def boolEnv : Env := RTV.Choice.genEnv
 
-def pickEnv (w : String) : Env := if w == "prefix" then RTV.Choice.genEnvPreFix else RTV.Choice.genEnv
+/-- variant string: any of `prefix` (span offset), `miss1` (index_of answers 1), `noinit` (parse_results unbound),
+joined by `+`; `fixed` = current code -/
+def pickEnv (w : String) : Env :=
+  let ps := w.splitOn "+"
+  { RTV.Choice.genEnv with
+    useMatchOffset := !ps.contains "prefix"
+    missIndex := if ps.contains "miss1" then 1 else -1
+    parseInit := !ps.contains "noinit" }
 
 def showScore (s : Score) : String := s!"{s.num}/{s.den}"
 
@@ -41,11 +48,11 @@ def hBoolTok : Handler
   | _ => "bad-op"
 
 def hBoolMv : Handler
-  | st :: n :: rest =>
+  | ms :: st :: n :: rest =>
     let k := parseNat n
     let src := (rest.take k).map parseCps
     let m := (rest.drop k).map parseCps
-    match matchValue src m (parseInt st) with
+    match matchValue (parseInt ms) src m (parseInt st) with
     | some sc => showScore sc
     | none => "err:ZeroDivisionError"
   | _ => "bad-op"
